@@ -148,6 +148,10 @@ func genOptions(c *evalCase) {
 		}
 	case 3:
 		c.hook = pick(rng, []int{1, 2, 5, 5})
+	case 4:
+		if rng.Pct(40) {
+			c.tag = pick(rng, []string{"", "nosuch", "BEXPR"}) // tag names no field carries: fields go by their Go names
+		}
 	}
 }
 
@@ -563,6 +567,7 @@ func runC03(r *Run) {
 	c03QuantifierBodies(r, n)
 	c03Siblings(r, n)
 	c03VeryLongChain(r)
+	c03FullyEvaluatedChains(r)
 	c03MatchPairs(r)
 }
 
